@@ -128,6 +128,7 @@ def absorb(ctx, rep, label, pid):
         if len(ctx.samples) < 6:
             ctx.samples.append("[%s] %s" % (label, s))
     ctx.functions_covered.update(rep.get("functions_covered", []))
+    ctx.functions_total.update(rep.get("functions_total", {}))
     listed = 0
     for f in rep.get("findings", []):
         if f["property"] != pid:
@@ -245,6 +246,7 @@ def run_valgrind(ctx, binary, label, pid, episodes, max_ops):
 def init(ctx):
     ctx.gen_failures = []
     ctx.functions_covered = set()
+    ctx.functions_total = {}
     ctx.module_history = {}
     ctx.excluded_modules = {}
 
@@ -294,6 +296,7 @@ def combos(ctx):
 
 def finish_coverage(ctx, manifest):
     ctx.count("generated_functions_executed", len(ctx.functions_covered))
+    ctx.count("generated_functions_in_the_sample", sum(ctx.functions_total.values()))
 
 
 def miri_modules(manifest, n):
